@@ -1,7 +1,7 @@
 SPECIFICATION Spec
 CONSTANTS
-  Roots <- Q_Roots
-  Ops <- R_Ops
+  Roots <- GR_Roots
+  Ops <- GR_Ops
   Scheds = {"sync"}
   MaxDepth = 2
   MaxRuns = 2
